@@ -26,12 +26,43 @@ def parseEntries : Nat → List String → Option (List (String × Addr) × List
     pure (e :: es, rest')
   | _ + 1, [] => none
 
-def parseOp (tok : String) : Option (Op String) :=
+/-- a query is a call of the model, or (public-API forms only) an argument check that panics before any lookup -/
+inductive Q
+  | op (o : Op String)
+  | fixed (obs : String)
+
+/-- `f: v: x:` are the calls of `internal/unexports2`; `F: M: V:` are the public API (builder.go:122 ExportStruct,
+    :144 ExportFunc, :180 UnExportedVar; mocker.go:359,431 objName = `pkg.name` / `pkg.type.method`, a type with `*`
+    is parenthesised; ue_var.go:33) -/
+def parseOp (tok : String) : Option Q :=
   match tok.toList with
-  | 'f' :: ':' :: n => some (.findFunc (String.ofList n))
-  | 'v' :: ':' :: n => some (.findVar (String.ofList n))
-  | 'x' :: ':' :: n => some (.expose (String.ofList n))
+  | 'f' :: ':' :: n => some (.op (.findFunc (String.ofList n)))
+  | 'v' :: ':' :: n => some (.op (.findVar (String.ofList n)))
+  | 'x' :: ':' :: n => some (.op (.expose (String.ofList n)))
+  | 'V' :: ':' :: n => some (.op (.findVar (String.ofList n)))
+  | 'F' :: ':' :: rest =>
+    match (String.ofList rest).splitOn "|" with
+    | [pkg, name] => if name = "" then some (.fixed "panic:empty-name") else some (.op (.findFunc (pkg ++ "." ++ name)))
+    | _ => none
+  | 'M' :: ':' :: rest =>
+    match (String.ofList rest).splitOn "|" with
+    | [pkg, ty, meth] =>
+      let recv := if ty.contains '*' then "(" ++ ty ++ ")" else ty
+      some (.op (.findFunc (pkg ++ "." ++ recv ++ "." ++ meth)))
+    | _ => none
   | _ => none
+
+def opsOf : List Q → List (Op String)
+  | [] => []
+  | .op o :: r => o :: opsOf r
+  | .fixed _ :: r => opsOf r
+
+/-- put the model's results back between the fixed observations -/
+def weave : List Q → List String → List String
+  | [], _ => []
+  | .fixed s :: r, rs => s :: weave r rs
+  | .op _ :: r, x :: rs => x :: weave r rs
+  | .op _ :: r, [] => "?" :: weave r []
 
 def errName : Err → String
   -- errors that come out of debug/elf, debug/gosym or os carry library texts: one observation class for both
@@ -42,7 +73,7 @@ def showRes : Res → String
   | .ok a => s!"ok:{hex64 a}"
   | .err e => s!"err:{errName e}"
 
-def parseHist (toks : List String) : Option (Env String × List (Op String)) := do
+def parseHist (toks : List String) : Option (Env String × List Q) := do
   match toks with
   | _cfg :: mf :: mv :: af :: av :: elf :: text :: pcln :: rest =>
     let mf ← (stripPrefix? "mf=" mf).bind parseNat
@@ -83,9 +114,9 @@ def handle (toks : List String) : Option String :=
   match toks with
   | "c10.hist" :: rest =>
     match parseHist rest with
-    | some (env, ops) =>
-      let rs := (run env {} ops).2
-      some (if rs.isEmpty then "-" else String.intercalate " " (rs.map showRes))
+    | some (env, qs) =>
+      let rs := weave qs ((run env {} (opsOf qs)).2.map showRes)
+      some (if rs.isEmpty then "-" else String.intercalate " " rs)
     | none => some "bad-op"
   | _ => none
 
